@@ -327,6 +327,10 @@ func VerifH_mestep() {
 		movedDown := v0.status[v0.cur] == available && v1.status[v0.cur] == available && v1.prio[v1.cur] > v1.prio[v0.cur]
 		verifAssert(!movedDown, "C14: current moved from an available endpoint to a lower-priority one")
 	}
+	if stillListed && v1.cur != v0.cur && v0.status[v0.cur] != unavailable && v1.status[v0.cur] == recovering {
+		// inside its recovery window a current endpoint gives way to a higher-priority available endpoint only
+		verifAssert(v1.status[v1.cur] == available && v1.prio[v1.cur] < v1.prio[v0.cur], "C14: current left an endpoint that is still inside its recovery window for an endpoint that is not a higher-priority available one")
+	}
 	if d > 0 && op != 2 && stillListed && (v1.status[v0.cur] == available || v1.status[v0.cur] == recovering) && v0.status[v0.cur] != unavailable {
 		verifAssert(v1.cur == v0.cur, "C14: with a switching delay current moved inside the call that made a better endpoint available")
 	}
